@@ -54,6 +54,8 @@ M = [
  ("glue-uplink-arm-no-handle", "C09", "src/sender/mod.rs", "                        if let Some(packet) = packet {\n                            handle_uplink_packet(", "                        if let Some(packet) = packet.filter(|p| p.bytes.len() != 44) {\n                            handle_uplink_packet("),
  ("glue-sighup-single-ip-dropped", "C19", "src/sender/mod.rs", "                        new_ips: Some(ips),\n", "                        new_ips: Some(ips).filter(|i: &SmallVec<IpAddr, 4>| i.len() > 1),\n"),
  ("glue-housekeeping-clock-ahead", "C08", "src/sender/mod.rs", "                            classic,\n                            srtla_core::utils::now_ms(),\n                            &mut all_failed_at,\n                            &mut reader_handles,\n                            &packet_tx,\n                        ).await {", "                            classic,\n                            srtla_core::utils::now_ms() + 4500,\n                            &mut all_failed_at,\n                            &mut reader_handles,\n                            &packet_tx,\n                        ).await {"),
+ ("glue-cc-controller-reset-on-reload", "C16", "src/sender/mod.rs", "                            info!(\"connection changes applied successfully\");\n", "                            info!(\"connection changes applied successfully\");\n                            link_cc_controller = srtla_core::selection::link_cc::LinkCcController::new();\n"),
+ ("glue-classifier-reset-on-reload", "C17", "src/sender/mod.rs", "                            info!(\"connection changes applied successfully\");\n", "                            info!(\"connection changes applied successfully\");\n                            weak_link_filter = srtla_core::selection::classifier::WeakLinkFilter::new();\n"),
  ("c20-prune-inverted", "C20", "src/subscriptions.rs", "entries.retain(|e| !to_prune.contains(&e.id));", "entries.retain(|e| to_prune.contains(&e.id));"),
 ]
 
